@@ -62,7 +62,10 @@ Mutations == {"trunc-half", "trunc-tag", "trunc-attr", "dup-statement", "dup-nam
               "deep-in-data", "huge-comment", "text-for-element", "unknown-element", "mismatched-end", "entity", "cdata", "doctype",
               "empty", "only-space", "not-xml", "lt-only", "two-replies"}
 GarbleTargets == {"open", "get-running", "get-candidate", "load", "commit", "close-db", "close-session"}
-GarbleCases == {[target |-> t, index |-> IF t = "load" THEN i ELSE 0, kind |-> "mut:" \o m] :
+(* systematic: the reply cut after its N-th tag, and with its N-th element removed *)
+PositionCases == {[target |-> t, index |-> 0, kind |-> "mut:trunc@" \o ToString(i)] : t \in {"get-running", "get-candidate"}, i \in 0..(IF Depth = 0 THEN 69 ELSE 139)}
+                 \cup {[target |-> t, index |-> 0, kind |-> "mut:del@" \o ToString(i)] : t \in {"get-running", "get-candidate"}, i \in 0..(IF Depth = 0 THEN 34 ELSE 69)}
+GarbleCases == PositionCases \cup {[target |-> t, index |-> IF t = "load" THEN i ELSE 0, kind |-> "mut:" \o m] :
                    t \in (IF Depth = 0 THEN {"get-running", "get-candidate", "load"} ELSE GarbleTargets), m \in Mutations, i \in 1..2}
 
 (* C02 "for all installed states": states in the ephemeral instance that the agent did not write itself *)
